@@ -26,7 +26,7 @@ RULE = ('family = one generated pipeline (single- and multi-input stages: map, s
         'successful fetches equals the number of completed function applications in '
         'the event log. Non-trivial = pipeline with at least 3 stages or a fault fired; '
         'distinct = distinct (pipeline, mode, fault plan, schedule seed).')
-PROBES = ['two_iterators_over_the_wrapper_in_flight', 'counters_read_while_iterator_suspended', 'original_iterated_after_wrapper', 'failed_fetch_counted', 'multi_input_stage_wrapped', 'behind_thread_prefetch',
+PROBES = ['pipeline_without_copy_refused_by_the_wrapper', 'two_iterators_over_the_wrapper_in_flight', 'counters_read_while_iterator_suspended', 'original_iterated_after_wrapper', 'failed_fetch_counted', 'multi_input_stage_wrapped', 'behind_thread_prefetch',
           'items_stage_inside', 'partial_iteration', 'indexing_through_wrapper']
 BUDGET = {
     'quick': {'families': 8000, 'wall_cap': 420, 'shrink_s': 12},
@@ -204,6 +204,14 @@ def gen_desc(rng):
 
 def gen(rng, tier, index):
     desc, a = gen_desc(rng)
+    if desc['source']['kind'] == 'list' and rng.random() < 0.06 and \
+            not any(s['op'] in ('apply', 'tile') for s in desc['stages']):
+        # the source is a user-written dataset without copy(): the profiler may
+        # refuse such a pipeline, it must not rewire the user's stage objects
+        d2 = dict(desc, source=dict(desc['source'], kind='user_nocopy'))
+        a2 = pargen.abs_eval(d2)
+        if a2 is not None:
+            desc, a = d2, a2
     n = desc['source']['n']
     has_pf = any(s['op'] == 'prefetch' for s in desc['stages'])
     catch_pos = next((i for i, s in enumerate(desc['stages']) if s['op'] == 'catch'), None)
@@ -347,9 +355,24 @@ def run(case):
         try:
             wrapped = ldc.ProfilingDataset(orig)
         except Exception as e:
-            bad('wrapping_failed', 'wrapping_failed:%s' % type(e).__name__,
-                'ProfilingDataset(pipeline) raised %r' % (e,))
             wrapped = None
+            if desc['source'].get('kind') == 'user_nocopy':
+                # a loud refusal of a pipeline that cannot be copied is fine; the
+                # pipeline must be exactly what it was
+                probes['pipeline_without_copy_refused_by_the_wrapper'] = 1
+                after = structure(orig)
+                if [(id(d), a_, l) for d, a_, l in before] != [(id(d), a_, l) for d, a_, l in after]:
+                    bad('wrapped_pipeline_modified', 'wrapped_pipeline_modified:refused',
+                        'ProfilingDataset(pipeline) refused (%r) but changed the pipeline object' % (e,))
+                else:
+                    obs_o, fo = observe(orig, case, ctxB, use_sim)
+                    if not (failA or fo) and obs_o != obsA:
+                        bad('original_pipeline_affected', 'original_pipeline_affected:refused',
+                            'after the refused wrapping the pipeline yields %s instead of %s'
+                            % (W.short(obs_o, 150), W.short(obsA, 150)))
+            else:
+                bad('wrapping_failed', 'wrapping_failed:%s' % type(e).__name__,
+                    'ProfilingDataset(pipeline) raised %r' % (e,))
         if wrapped is not None:
             heldB, heldC = [], []
             obsB, failB = observe(wrapped, case, ctxB, use_sim, heldB)
@@ -359,7 +382,8 @@ def run(case):
             # it had been used instead of the wrapper (hidden shared state, e.g.
             # a per-epoch permutation buffer, shows in its next iteration)
             same_after = None
-            if case['mode'] == 'iter' and not case.get('hold') and not case.get('interleave') and any(
+            if case['mode'] == 'iter' and not case.get('hold') and not case.get('interleave') and \
+                    desc['source'].get('kind') != 'user_nocopy' and any(
                     s_['op'] in ('reshuffle', 'local_shuffle', 'shuffle') for s_ in desc['stages']):
                 full = dict(case, k=None, epochs=1)
                 obs_o, fo = observe(orig, full, ctxB, use_sim)
